@@ -136,9 +136,11 @@ def run_count_size(sx, n, which):
     # realisable iff n cells of a geometric progression with that first (last) cell and total ratio within the library's
     # documented range exist: for n >= 2 any 0 < s < L works in principle (ratio bounded by R_MAX = 1e7)
     if out[0] != "ok":
-        lo_sum = sum(Fraction(1, 2) ** i for i in range(n))
-        hi_sum = sum(Fraction(2) ** i for i in range(n))
-        # realisable with a cell-to-cell ratio inside [0.5, 2] (margin 1e-3)
+        # realisable with a total expansion inside [1e-6, 1e6] - one decade inside the library's documented limits
+        # (R_MAX = 1e7) - i.e. a cell-to-cell ratio inside [1/cmax, cmax], cmax = 1e6**(1/(n-1)) (margin 1e-3)
+        cmax = Fraction(int(1e6 ** (1.0 / max(n - 1, 1)) * 1000), 1000)
+        lo_sum = sum((1 / cmax) ** i for i in range(n))
+        hi_sum = sum(cmax ** i for i in range(n))
         feasible = sx.all([s * sx.const(lo_sum * Fraction(1001, 1000)) <= L, s * sx.const(hi_sum * Fraction(999, 1000)) >= L]) \
             if n >= 2 else False
         sx.prove(sx.neg(feasible), f"count={n} & {which} comfortably inside the realisable range must be accepted",
